@@ -31,10 +31,10 @@ abbrev G.plain (d : Bytes) : G := { data := d, limit := none, frames := [] }
 
 @[simp] theorem runG_takeOptU8_plain_cons (b : UInt8) (rest : Bytes) :
     runG takeOptU8 (G.plain (b :: rest)) = .ok (some b, G.plain rest) := by
-  simp [takeOptU8, runG, stepG, G.view, G.advance, G.plain]
+  simp [takeOptU8, runG, stepG, G.view, G.advance, G.plain, G.request]
 @[simp] theorem runG_takeOptU8_plain_nil :
     runG takeOptU8 (G.plain []) = .ok (none, G.plain []) := by
-  simp [takeOptU8, runG, stepG, G.view, G.plain]
+  simp [takeOptU8, runG, stepG, G.view, G.plain, G.request]
 @[simp] theorem runG_takeU8_plain_cons (b : UInt8) (rest : Bytes) :
     runG takeU8 (G.plain (b :: rest)) = .ok (b, G.plain rest) := by
   simp [takeU8, runG_bind]
